@@ -3,6 +3,8 @@ package props
 // C11 — entity events are complete and truthful: replaying them rebuilds the world.
 
 import (
+	"pgregory.net/rapid"
+	"strings"
 	"testing"
 
 	"verifharness/core"
@@ -28,9 +30,18 @@ func TestC11(t *testing.T) {
 			Listener:       "full",
 			CheckEvents:    true,
 			NoListenerTwin: true,
+			// a refused call (it panicked) has changed nothing: otherwise the world holds changes that no
+			// event announced, and replaying the stream no longer rebuilds it
+			OwnedIf: func(s *core.Sim, f *core.Finding) bool {
+				return f.Cat == core.CatIllegal && strings.Contains(f.Msg, "rejected call changed")
+			},
 		},
 		Mix:      mix,
 		MaxPlain: 4, MaxRel: 3,
+		Setup: func(rt *rapid.T, sim *core.Sim, g *core.Gen) {
+			g.Illegal = []string{core.IllCount, core.IllDeadTarget, core.IllRelMissing, core.IllRelNotRel, core.IllNoBuilderRel, core.IllAddPresent, core.IllRemoveAbsent}
+			g.IllegalPct = 4
+		},
 		Rule: "histories over all mutating operations (single, batch, Q variants, with and without relation targets, incl. calls that change nothing) on a world whose listener subscribes to everything, in lock-step with a twin world without listener; oracle per op: exactly one event per entity the model says changed and none otherwise; Added/Removed masks and AddedIDs/RemovedIDs == difference of the component sets; OldRelation/NewRelation/OldTarget == relation and target before/after; type bits == bits derived from the documented table (created/removed, component added/removed, relation changed, target changed); delivery: non-removal events with the world unlocked and the entity already in its final state (new target readable), removal events with the world locked, the entity alive and inspectable and a structural call panicking; Q variants: no event before the returned query is closed/exhausted; since the model is rebuilt from exactly these per-entity differences, agreement of every event with the model's change is the replay oracle; a call that panics only in the world with the listener is reported; non-trivial = at least one event carrying RelationChanged/TargetChanged",
 		Observe: func(tr *tracker, op *core.Op) {
 			if tr.sim.Flags["events.relation"] > 0 {
